@@ -47,7 +47,7 @@ Qed.
 Lemma ok_drain k s : k <= length (stack s) ->
   ok_with (drain k) s (fun a s' => a = rev (firstn k (stack s)) /\ stack s' = skipn k (stack s) /\ frame s s').
 Proof.
-  intros H. unfold ok_with, drain, bind, get. cbn.
+  intros H. unfold ok_with, drain, bind, get. cbn -[Nat.ltb].
   destruct (Nat.ltb_spec (length (stack s)) k) as [Hlt|Hge]; [lia|].
   unfold set_stack, ret, frame, bind. cbn. repeat split; reflexivity || lia.
 Qed.
@@ -57,7 +57,7 @@ Lemma ok_emit i s : operands_len i <= length (stack s) ->
     stack s' = rev (seq (nxt s) (results_len i)) ++ skipn (operands_len i) (stack s)
     /\ realloc s' = realloc s /\ retp s' = retp s /\ nxt s' = nxt s + results_len i).
 Proof.
-  intros H. unfold ok_with, emit, bind, drain, get. cbn.
+  intros H. unfold ok_with, emit, bind, drain, get. cbn -[Nat.ltb].
   destruct (Nat.ltb_spec (length (stack s)) (operands_len i)) as [Hlt|Hge]; [lia|].
   unfold set_stack, ret, fresh, log, push_all, bind, get. cbn. repeat split; reflexivity.
 Qed.
@@ -68,7 +68,7 @@ Lemma ok_emit_stk i s top rest :
   ok_with (emit i) s (stk s (rev (seq (nxt s) (results_len i)) ++ rest)).
 Proof.
   intros Hs Hl. eapply ok_weaken; [apply ok_emit; rewrite Hs, app_length; lia|].
-  intros _ s' [H1 [H2 [H3 H4]]]. unfold stk, frame. rewrite H1, Hs.
+  intros [] s' [H1 [H2 [H3 H4]]]. unfold stk, frame. rewrite H1, Hs.
   rewrite skipn_app, skipn_all2 by lia. rewrite Hl, Nat.sub_diag. cbn. repeat split; try assumption; lia.
 Qed.
 
@@ -84,7 +84,7 @@ Proof.
   intros Hs Hl. unfold finish_block. apply ok_bind.
   eapply ok_weaken; [apply ok_drain; rewrite Hs, app_length; lia|].
   intros a s' [_ [H2 H3]]. eapply ok_weaken; [apply ok_log|].
-  intros _ s'' [H4 H5]. unfold stk. split.
+  intros [] s'' [H4 H5]. unfold stk. split.
   - rewrite H4, H2, Hs. rewrite skipn_app, skipn_all2 by lia. rewrite Hl, Nat.sub_diag. reflexivity.
   - eapply frame_trans; eassumption.
 Qed.
@@ -106,3 +106,327 @@ Proof. intros Hf [H1 H2]. split; [exact H1 | eapply frame_trans; eassumption]. Q
 
 Lemma ok_stk_frame (m : M unit) s0 s1 st : frame s0 s1 -> ok_with m s1 (stk s1 st) -> ok_with m s1 (stk s0 st).
 Proof. intros Hf H. eapply ok_weaken; [exact H|]. intros [] s' Hs. eapply stk_frame; eassumption. Qed.
+
+(** fixed-arity forms *)
+Lemma ok_emit0 i s st : stack s = st -> operands_len i = 0 ->
+  ok_with (emit i) s (stk s (rev (seq (nxt s) (results_len i)) ++ st)).
+Proof. intros Hs H. apply (ok_emit_stk i s [] st); [exact Hs | symmetry; exact H]. Qed.
+Lemma ok_emit1 i s a rest : stack s = a :: rest -> operands_len i = 1 ->
+  ok_with (emit i) s (stk s (rev (seq (nxt s) (results_len i)) ++ rest)).
+Proof. intros Hs H. apply (ok_emit_stk i s [a] rest); [exact Hs | symmetry; exact H]. Qed.
+Lemma ok_emit2 i s a b rest : stack s = a :: b :: rest -> operands_len i = 2 ->
+  ok_with (emit i) s (stk s (rev (seq (nxt s) (results_len i)) ++ rest)).
+Proof. intros Hs H. apply (ok_emit_stk i s [a; b] rest); [exact Hs | symmetry; exact H]. Qed.
+
+Lemma ok_push' x s st : stack s = st -> ok_with (push x) s (stk s (x :: st)).
+Proof. intros <-. apply ok_push. Qed.
+Lemma ok_push_all' xs s st : stack s = st -> ok_with (push_all xs) s (stk s (rev xs ++ st)).
+Proof. intros <-. apply ok_push_all. Qed.
+Lemma ok_push_block' s st : stack s = st -> ok_with push_block s (stk s st).
+Proof. intros <-. apply ok_push_block. Qed.
+Lemma ok_finish0 s st : stack s = st -> ok_with (finish_block 0) s (stk s st).
+Proof. intros H. apply (ok_finish_block 0 s [] st); [exact H | reflexivity]. Qed.
+Lemma ok_finish1 s a st : stack s = a :: st -> ok_with (finish_block 1) s (stk s st).
+Proof. intros H. apply (ok_finish_block 1 s [a] st); [exact H | reflexivity]. Qed.
+Lemma ok_finish2 s a b st : stack s = a :: b :: st -> ok_with (finish_block 2) s (stk s st).
+Proof. intros H. apply (ok_finish_block 2 s [a; b] st); [exact H | reflexivity]. Qed.
+
+Lemma ok_pop' s x st (Q : nat -> gst -> Prop) :
+  stack s = x :: st -> (forall s', stack s' = st -> frame s s' -> Q x s') -> ok_with pop s Q.
+Proof.
+  intros Hs HQ. eapply ok_weaken; [apply (ok_pop s x st Hs)|]. intros a s' [-> [H1 H2]]. apply HQ; assumption.
+Qed.
+
+Lemma ok_ret_stk s0 s st : stack s = st -> frame s0 s -> ok_with (ret tt) s (stk s0 st).
+Proof. intros H Hf. unfold ok_with, ret, stk. auto. Qed.
+
+(** one step of a [;;;]-chain whose head has a [stk] specification *)
+Ltac fr := first [ assumption | apply frame_refl | solve [ repeat (eapply frame_trans; [eassumption|]); (assumption || apply frame_refl) ]].
+Ltac next_with lem :=
+  eapply ok_seq; [ eapply lem; (eassumption || reflexivity || eauto) | intros ?s' ?Hs ?Hf ].
+Ltac close_stk :=
+  match goal with
+  | |- ok_with _ _ (stk _ _) => eapply ok_weaken; [ | intros [] ?s'' [?Hq1 ?Hq2]; split; [exact Hq1 | fr] ]
+  end.
+
+Lemma ok_realloc_bind {B} (k : bool -> M B) s r Q :
+  realloc s = Some r -> ok_with (k r) s Q -> ok_with (bind list_realloc k) s Q.
+Proof.
+  intros H Hk. apply ok_bind. eapply ok_weaken; [apply (ok_list_realloc s r H)|].
+  intros a s' [-> ->]. exact Hk.
+Qed.
+
+Lemma frame_realloc s s' r : frame s s' -> realloc s = Some r -> realloc s' = Some r.
+Proof. intros [H _] Hr. congruence. Qed.
+
+(** the memory-mode lowering consumes exactly its operand, for every type *)
+Definition write_spec (canon : ty -> bool) (t : ty) : Prop :=
+  forall addr off s x st r, stack s = x :: st -> realloc s = Some r ->
+    ok_with (write canon t addr off) s (stk s st).
+
+Lemma store_ptr_len_ok t addr off s p l st :
+  stack s = l :: p :: st -> ok_with (store_ptr_len t addr off) s (stk s st).
+Proof.
+  intros Hs. unfold store_ptr_len.
+  next_with ok_push'. next_with ok_emit2. cbn [results_len seq rev app] in *.
+  next_with ok_push'.
+  eapply ok_weaken; [eapply ok_emit2; [eassumption | reflexivity]|].
+  intros [] s'' [Hq1 Hq2]. split; [exact Hq1 | fr].
+Qed.
+
+Lemma write_scalar_ok i sop :
+  operands_len i = 1 -> results_len i = 1 ->
+  forall addr off s x st, stack s = x :: st ->
+    ok_with (emit i ;;; push addr ;;; emit (Store sop off)) s (stk s st).
+Proof.
+  intros Ho Hr addr off s x st Hs.
+  next_with ok_emit1. rewrite Hr in *. cbn [seq rev app] in *.
+  next_with ok_push'.
+  eapply ok_weaken; [eapply ok_emit2; [eassumption | reflexivity]|].
+  intros [] s'' [Hq1 Hq2]. split; [exact Hq1 | fr].
+Qed.
+
+Ltac finish_with lem :=
+  eapply ok_weaken; [ eapply lem; (eassumption || reflexivity || eauto)
+                    | intros [] ?s'' [?Hq1 ?Hq2]; split; [exact Hq1 | fr] ].
+
+(** the element-wise / canonical list lowering leaves [ptr; len] in place of the list operand *)
+Lemma lower_list_with_ok canon e (w : nat -> asize -> M unit) :
+  (forall addr off s x st r, stack s = x :: st -> realloc s = Some r -> ok_with (w addr off) s (stk s st)) ->
+  forall s x st r, stack s = x :: st -> realloc s = Some r ->
+    ok_with (lower_list_with canon e w) s (fun _ s' => exists p l, stack s' = l :: p :: st /\ frame s s').
+Proof.
+  intros Hw s x st r Hs Hr. unfold lower_list_with.
+  eapply ok_realloc_bind; [exact Hr|].
+  destruct (canon e).
+  - eapply ok_weaken; [eapply ok_emit1; [exact Hs | reflexivity]|].
+    intros [] s' [H1 H2]. cbn [results_len seq rev app] in H1. eauto.
+  - next_with ok_push_block'.
+    next_with ok_emit0. cbn [results_len seq rev app] in *.
+    next_with ok_emit0. cbn [results_len seq rev app] in *.
+    apply ok_bind. eapply ok_pop'; [eassumption|]. intros s3 Hs3 Hf3.
+    eapply ok_seq.
+    { eapply Hw; [exact Hs3 | eapply frame_realloc; [|exact Hr]; fr]. }
+    intros s4 Hs4 Hf4.
+    next_with ok_finish0.
+    eapply ok_weaken; [eapply ok_emit1; [eassumption | reflexivity]|].
+    intros [] s6 [H1 H2]. cbn [results_len seq rev app] in H1. do 2 eexists. split; [exact H1 | fr].
+Qed.
+
+Lemma lower_map_with_ok k v (wk wv : nat -> asize -> M unit) :
+  (forall addr off s x st r, stack s = x :: st -> realloc s = Some r -> ok_with (wk addr off) s (stk s st)) ->
+  (forall addr off s x st r, stack s = x :: st -> realloc s = Some r -> ok_with (wv addr off) s (stk s st)) ->
+  forall s x st r, stack s = x :: st -> realloc s = Some r ->
+    ok_with (lower_map_with k v wk wv) s (fun _ s' => exists p l, stack s' = l :: p :: st /\ frame s s').
+Proof.
+  intros Hk Hv s x st r Hs Hr. unfold lower_map_with.
+  eapply ok_realloc_bind; [exact Hr|].
+  next_with ok_push_block'.
+  next_with ok_emit0. cbn [results_len seq rev app] in *.
+  next_with ok_emit0. cbn [results_len seq rev app] in *.
+  apply ok_bind. eapply ok_pop'; [eassumption|]. intros s3 Hs3 Hf3.
+  eapply ok_seq.
+  { eapply Hk; [exact Hs3 | eapply frame_realloc; [|exact Hr]; fr]. }
+  intros s4 Hs4 Hf4.
+  next_with ok_emit0. cbn [results_len seq rev app] in *.
+  next_with ok_emit0. cbn [results_len seq rev app] in *.
+  apply ok_bind. eapply ok_pop'; [eassumption|]. intros s7 Hs7 Hf7.
+  eapply ok_seq.
+  { eapply Hv; [exact Hs7 | eapply frame_realloc; [|exact Hr]; fr]. }
+  intros s8 Hs8 Hf8.
+  next_with ok_finish0.
+  eapply ok_weaken; [eapply ok_emit1; [eassumption | reflexivity]|].
+  intros [] s10 [H1 H2]. cbn [results_len seq rev app] in H1. do 2 eexists. split; [exact H1 | fr].
+Qed.
+
+Lemma flags_store_loop_ok addr (f : nat -> asize) l : forall vals s st,
+  length vals = length l -> stack s = vals ++ st ->
+  ok_with (mapM_ (fun i => push addr ;;; emit (Store SI32 (f i))) l) s (stk s st).
+Proof.
+  induction l as [|i l IH]; intros vals s st Hlen Hs.
+  - destruct vals; [|discriminate Hlen]. cbn [mapM_]. apply ok_ret_stk; [exact Hs | apply frame_refl].
+  - destruct vals as [|v vals]; [discriminate Hlen|]. cbn [mapM_ app] in *.
+    apply ok_bind. next_with ok_push'.
+    eapply ok_weaken; [eapply ok_emit2; [eassumption | reflexivity]|].
+    intros [] s2 [Hs2 Hf2]. cbn [results_len seq rev app] in Hs2.
+    eapply ok_weaken; [apply (IH vals s2 st); [injection Hlen; auto | exact Hs2]|].
+    intros [] s3 [Hs3 Hf3]. split; [exact Hs3 | fr].
+Qed.
+
+(** the per-case blocks of a variant written to memory leave the variant operand in place *)
+Lemma write_arms_ok canon addr off cs : Forall (OptP (write_spec canon)) cs ->
+  forall tagb poff i s x st r, stack s = x :: st -> realloc s = Some r ->
+    ok_with ((fix write_arms (tagb : N) (poff : asize) (cs : list (option ty)) (i : nat) {struct cs} : M unit :=
+                match cs with
+                | [] => ret tt
+                | c :: cs' =>
+                    push_block ;;;
+                    emit VariantPayloadName ;;;
+                    payload_name <- pop ;;
+                    emit (I32Const (Z.of_nat i)) ;;;
+                    push addr ;;;
+                    emit (Store (int_store tagb) off) ;;;
+                    (match c with
+                     | Some x => push payload_name ;;; write canon x addr poff
+                     | None => ret tt
+                     end) ;;;
+                    finish_block 0 ;;;
+                    write_arms tagb poff cs' (S i)
+                end) tagb poff cs i) s (stk s (x :: st)).
+Proof.
+  induction 1 as [|c cs Hc Hcs IH]; intros tagb poff i s x st r Hs Hr.
+  - apply ok_ret_stk; [exact Hs | apply frame_refl].
+  - next_with ok_push_block'.
+    next_with ok_emit0. cbn [results_len seq rev app] in *.
+    apply ok_bind. eapply ok_pop'; [eassumption|]. intros s3 Hs3 Hf3.
+    next_with ok_emit0. cbn [results_len seq rev app] in *.
+    next_with ok_push'.
+    next_with ok_emit2. cbn [results_len seq rev app] in *.
+    match goal with |- ok_with _ ?cur _ => assert (Hr6 : realloc cur = Some r) by (eapply frame_realloc; [|exact Hr]; fr) end.
+    eapply ok_seq with (st := x :: st).
+    { destruct c as [t|].
+      - next_with ok_push'.
+        eapply ok_weaken; [eapply Hc; [eassumption | eapply frame_realloc; [|exact Hr6]; fr]|].
+        intros [] s8 [Hq1 Hq2]. split; [exact Hq1 | fr].
+      - apply ok_ret_stk; [assumption | apply frame_refl]. }
+    intros s9 Hs9 Hf9.
+    next_with ok_finish0.
+    eapply ok_weaken; [eapply (IH tagb poff (S i) _ x st r); [eassumption | eapply frame_realloc; [|exact Hr6]; fr]|].
+    intros [] s11 [Hq1 Hq2]. split; [exact Hq1 | fr].
+Qed.
+
+Theorem write_ok canon : forall t, write_spec canon t.
+Proof.
+  induction t using ty_ind'; intros addr off s x st r Hs Hr.
+  1-12,14,25-28: (cbn [write lower_scalar_op scalar_store];
+                  eapply write_scalar_ok; [reflexivity | reflexivity | exact Hs]).
+  - (* string *)
+    cbn [write]. apply ok_bind.
+    eapply ok_realloc_bind; [exact Hr|].
+    eapply ok_weaken; [eapply ok_emit1; [exact Hs | reflexivity]|].
+    intros [] s1 [Hs1 Hf1]. cbn [results_len seq rev app] in Hs1.
+    eapply ok_weaken; [eapply store_ptr_len_ok; exact Hs1|].
+    intros [] s2 [Hs2 Hf2]. split; [exact Hs2 | fr].
+  - (* list *)
+    cbn [write]. apply ok_bind.
+    eapply ok_weaken; [eapply (lower_list_with_ok canon t (write canon t) IHt s x st r Hs Hr)|].
+    intros [] s1 [p [l [Hs1 Hf1]]].
+    eapply ok_weaken; [eapply store_ptr_len_ok; exact Hs1|].
+    intros [] s2 [Hs2 Hf2]. split; [exact Hs2 | fr].
+  - (* fixed *)
+    cbn [write].
+    next_with ok_push_block'.
+    next_with ok_emit0. cbn [results_len seq rev app] in *.
+    next_with ok_emit0. cbn [results_len seq rev app] in *.
+    apply ok_bind. eapply ok_pop'; [eassumption|]. intros s3 Hs3 Hf3.
+    eapply ok_seq.
+    { eapply IHt; [exact Hs3 | eapply frame_realloc; [|exact Hr]; fr]. }
+    intros s4 Hs4 Hf4.
+    next_with ok_finish0.
+    next_with ok_push'.
+    finish_with ok_emit2.
+  - (* map *)
+    cbn [write]. apply ok_bind.
+    eapply ok_weaken; [eapply (lower_map_with_ok t1 t2 (write canon t1) (write canon t2) IHt1 IHt2 s x st r Hs Hr)|].
+    intros [] s1 [p [l [Hs1 Hf1]]].
+    eapply ok_weaken; [eapply store_ptr_len_ok; exact Hs1|].
+    intros [] s2 [Hs2 Hf2]. split; [exact Hs2 | fr].
+  - (* record *)
+    cbn [write].
+    eapply ok_seq; [eapply ok_emit1; [exact Hs | reflexivity]|]. intros s1 Hs1 Hf1.
+    cbn [results_len] in Hs1.
+    apply ok_bind. eapply ok_weaken; [apply ok_drain; rewrite Hs1, app_length, rev_length, seq_length; lia|].
+    intros vals s2 [Hv [Hs2 Hf2]].
+    assert (Hst2 : stack s2 = st).
+    { rewrite Hs2, Hs1. rewrite skipn_app, skipn_all2 by (rewrite rev_length, seq_length; lia).
+      rewrite rev_length, seq_length, Nat.sub_diag. reflexivity. }
+    assert (Hr2 : realloc s2 = Some r) by (eapply frame_realloc; [|exact Hr]; fr).
+    assert (Hf02 : frame s s2) by fr.
+    clear Hs2 Hv Hs1 Hf1 Hf2 s1 Hs.
+    generalize asize0. revert vals s2 Hst2 Hr2 Hf02.
+    induction H as [|f fs Hf Hfs IHfs]; intros vals s2 Hst2 Hr2 Hf02 cur.
+    + apply ok_ret_stk; assumption.
+    + destruct vals as [|v vals]; [apply ok_ret_stk; assumption|].
+      next_with ok_push'.
+      eapply ok_seq.
+      { eapply Hf; [eassumption | eapply frame_realloc; [|exact Hr2]; fr]. }
+      intros s4 Hs4 Hf4.
+      eapply ok_weaken; [eapply (IHfs vals s4 Hs4); [eapply frame_realloc; [|exact Hr2]; fr | fr]|].
+      intros [] s5 Hq. exact Hq.
+  - (* tuple *)
+    cbn [write].
+    eapply ok_seq; [eapply ok_emit1; [exact Hs | reflexivity]|]. intros s1 Hs1 Hf1.
+    cbn [results_len] in Hs1.
+    apply ok_bind. eapply ok_weaken; [apply ok_drain; rewrite Hs1, app_length, rev_length, seq_length; lia|].
+    intros vals s2 [Hv [Hs2 Hf2]].
+    assert (Hst2 : stack s2 = st).
+    { rewrite Hs2, Hs1. rewrite skipn_app, skipn_all2 by (rewrite rev_length, seq_length; lia).
+      rewrite rev_length, seq_length, Nat.sub_diag. reflexivity. }
+    assert (Hr2 : realloc s2 = Some r) by (eapply frame_realloc; [|exact Hr]; fr).
+    assert (Hf02 : frame s s2) by fr.
+    clear Hs2 Hv Hs1 Hf1 Hf2 s1 Hs.
+    generalize asize0. revert vals s2 Hst2 Hr2 Hf02.
+    induction H as [|f fs Hf Hfs IHfs]; intros vals s2 Hst2 Hr2 Hf02 cur.
+    + apply ok_ret_stk; assumption.
+    + destruct vals as [|v vals]; [apply ok_ret_stk; assumption|].
+      next_with ok_push'.
+      eapply ok_seq.
+      { eapply Hf; [eassumption | eapply frame_realloc; [|exact Hr2]; fr]. }
+      intros s4 Hs4 Hf4.
+      eapply ok_weaken; [eapply (IHfs vals s4 Hs4); [eapply frame_realloc; [|exact Hr2]; fr | fr]|].
+      intros [] s5 Hq. exact Hq.
+  - (* variant *)
+    cbn [write].
+    eapply ok_seq with (st := x :: st).
+    { eapply (write_arms_ok canon addr off cs H); eassumption. }
+    intros s1 Hs1 Hf1. finish_with ok_emit1.
+  - (* enum *)
+    cbn [write]. eapply write_scalar_ok; [reflexivity | reflexivity | exact Hs].
+  - (* option *)
+    cbn [write].
+    eapply ok_seq with (st := x :: st).
+    { eapply (write_arms_ok canon addr off (cases_of_option t)); [|eassumption|eassumption].
+      unfold cases_of_option. constructor; [exact I | constructor; [exact IHt | constructor]]. }
+    intros s1 Hs1 Hf1. finish_with ok_emit1.
+  - (* result *)
+    cbn [write].
+    eapply ok_seq with (st := x :: st).
+    { eapply (write_arms_ok canon addr off (cases_of_result ok err)); [|eassumption|eassumption].
+      unfold cases_of_result. constructor; [assumption | constructor; [assumption | constructor]]. }
+    intros s1 Hs1 Hf1. finish_with ok_emit1.
+  - (* flags *)
+    cbn [write].
+    eapply ok_seq; [eapply ok_emit1; [exact Hs | reflexivity]|]. intros s1 Hs1 Hf1.
+    cbn [results_len] in Hs1. unfold flags_count in *.
+    destruct (n =? 0)%N eqn:E0.
+    { change (N.to_nat 0) with 0%nat in Hs1. cbn [seq rev app] in Hs1. apply ok_ret_stk; assumption. }
+    destruct (n <=? 8)%N eqn:E8.
+    { assert (E16 : (n <=? 16)%N = true) by (apply N.leb_le; apply N.leb_le in E8; lia).
+      rewrite E16 in Hs1. change (N.to_nat 1) with 1%nat in Hs1. cbn [seq rev app] in Hs1.
+      next_with ok_push'. finish_with ok_emit2. }
+    destruct (n <=? 16)%N eqn:E16.
+    { change (N.to_nat 1) with 1%nat in Hs1. cbn [seq rev app] in Hs1.
+      next_with ok_push'. finish_with ok_emit2. }
+    eapply ok_weaken; [eapply (flags_store_loop_ok addr (fun i => a_add_bytes off (N.of_nat i * 4)) _ _ s1 st); [|exact Hs1]|].
+    + rewrite !rev_length, !seq_length. reflexivity.
+    + intros [] s2 [Hq1 Hq2]. split; [exact Hq1 | fr].
+Qed.
+
+(** the public entry point [abi::lower_to_memory]: for every type and every is_list_canonical oracle it runs to
+    completion (no panic site reached) and leaves no operand on the stack *)
+Theorem lower_to_memory_never_panics canon t :
+  ok_with (lower_to_memory canon t) gst0 (fun _ s' => stack s' = []).
+Proof.
+  unfold lower_to_memory.
+  apply ok_bind. unfold ok_with at 1. cbn [fresh gst0 nxt seq Nat.add].
+  apply ok_bind. unfold ok_with at 1. cbn [set_realloc].
+  apply ok_bind. unfold ok_with at 1, push, bind, get, set_stack. cbn [stack nxt evs retp realloc].
+  eapply ok_weaken; [eapply (write_ok canon t 0 asize0 _ 1 [] true); reflexivity|].
+  intros [] s' [H _]. exact H.
+Qed.
+
+Example write_discipline_example :
+  match lower_to_memory (fun _ => false)
+          (TRecord [TU8; TList TString; TOption (TVariant [Some TF32; None; Some (TMap TU8 TString)]); TFlags 40; TFixed TU64 3]) gst0
+  with Ok _ s' => stack s' = [] /\ (40 <=? length (evs s'))%nat = true | Err _ => False end.
+Proof. vm_compute. split; reflexivity. Qed.
